@@ -544,6 +544,19 @@ def map_session(col, binpath, rng, tag, scratch):
                 want = groups[a_][j] * 1.5
                 if abs(groups[b_][j] - want) > 1.5 + 0.06 * want:
                     col.add("C18", f"C18|map_opposite_sides_inconsistent|{a_}{b_}", f"{a_} at {MULT[a_][j] * d} km is {groups[a_][j]} cells from the centre, {b_} at {MULT[b_][j] * d} km is {groups[b_][j]} cells (expected about {want:.1f})", inp2)
+        # one scale for both axes: the same distance east-west covers as many columns as it covers
+        # rows north-south, times the canvas' columns-per-row (both axes span the same extent)
+        W, H = right - left - 1, bottom - top - 1
+        cols_per_km = (groups["E"][1] / (2 * d) + groups["W"][1] / (3 * d)) / 2
+        rows_per_km = (groups["N"][1] / (2 * d) + groups["S"][1] / (3 * d)) / 2
+        if rows_per_km > 0 and cols_per_km > 0:
+            aspect = (cols_per_km / rows_per_km) / (W / H)
+            tol = 0.08 + 0.5 / groups["S"][1] + 0.5 / groups["W"][1]
+            col.count("aspect_checks")
+            if os.environ.get("VERIF_DEBUG_ASPECT"):
+                print(f"ASPECT {aspect:.3f} tol {tol:.3f} W={W} H={H} groups={groups} lat={lat}", flush=True)
+            if abs(aspect - 1.0) > tol:
+                col.add("C18", "C18|map_axes_scaled_differently", f"{2 * d:.0f}/{3 * d:.0f} km east/west cover {groups['E'][1]}/{groups['W'][1]} columns, north/south {groups['N'][1]}/{groups['S'][1]} rows on a canvas of {W}x{H} cells: east-west is stretched by a factor {aspect:.2f} relative to north-south", inp2)
         # zooming changes the scale only: after three zoom-outs all eight aircraft are still there,
         # in the same directions and proportions, nearer to the centre; after five zoom-ins (net two
         # in) whoever is still on the canvas is in its direction, farther out; reset: the first picture
